@@ -3,19 +3,19 @@ import PynetVerif.Model.Dul
 namespace PynetVerif.Driver
 open PynetVerif.Dul PynetVerif.Fsm
 
-def primOfSExp : SExp → Option Prim
+private def primOfSExp : SExp → Option Prim
   | .sym "assocRq" => some .assocRq | .sym "accept" => some .accept | .sym "reject" => some .reject
   | .sym "pdata" => some .pdata | .sym "releaseRq" => some .releaseRq | .sym "releaseRp" => some .releaseRp
   | .sym "abort" => some (.abort false) | .sym "pabort" => some (.abort true)
   | _ => none
 
-def primToSExp : Prim → SExp
+private def primToSExp : Prim → SExp
   | .assocRq => .sym "assocRq" | .connectOk => .sym "connectOk" | .connectFail => .sym "connectFail"
   | .accept => .sym "accept" | .reject => .sym "reject" | .pdata => .sym "pdata"
   | .releaseRq => .sym "releaseRq" | .releaseRp => .sym "releaseRp"
   | .abort false => .sym "abort" | .abort true => .sym "pabort"
 
-def stepOfSExp : SExp → Option Step
+private def stepOfSExp : SExp → Option Step
   | .sym "a" => some .a
   | .sym "b" => some .b
   | .list [.sym "pdu", .nat e, .sym alt] => some (.env (.peer (.pdu e (alt == "T"))))
@@ -27,11 +27,11 @@ def stepOfSExp : SExp → Option Step
   | .list [.sym "local", p] => (primOfSExp p).map (fun p => .env (.local p))
   | _ => none
 
-def artimToSExp : Artim → SExp
+private def artimToSExp : Artim → SExp
   | .off => .sym "off" | .running => .sym "running" | .runningExpired => .sym "runningExpired"
   | .stoppedOk => .sym "stoppedOk" | .stoppedExpired => .sym "stoppedExpired"
 
-def obs (s : St) : SExp :=
+private def obs (s : St) : SExp :=
   .list [.nat s.fsm, .list (s.eventQ.map .nat), .list (s.provQ.map primToSExp), SExp.ofBool s.connected,
          SExp.ofBool s.artim.expired, SExp.ofBool s.kill, SExp.ofBool s.dead, .nat s.sent.length,
          .nat (s.toUser.filter (· != .indPdata)).length, .nat s.recvPdu.length, .nat s.closes,
